@@ -9,85 +9,100 @@ growing policy, and read script without failing events.
 -/
 
 namespace SeqIo.Fastq
-open SeqIo SeqIo.Spec SeqIo.WriteProofs SeqIo.FillProofs
+open SeqIo SeqIo.Spec SeqIo.WriteProofs SeqIo.FillProofs SeqIo.Fastq.Hist
 
 theorem validate_ip (r : Reader) : (validate r).1.incompletePos = r.incompletePos := by
   unfold validate
   repeat' split
   all_goals first | rfl | (simp only; split <;> rfl)
 
-/-- `search` (or a pending resume) followed by the loop -/
-theorem nextCont_spec (inp : List UInt8) (fuel : Nat) (r : Reader) (hb : Base inp r)
-    (he : Eof inp r) (hst : r.state = .parsing) (hip : r.incompletePos = none)
-    (hfuel : inp.length + 2 ≤ fuel) :
-    Outcome inp (itemsAt inp r.byte r.line) (nextCont fuel r) := by
-  rcases si_spec r .head hb.pos0_le trivial with ⟨bp', ip', hp0, hsc, hres⟩ | ⟨bp', hp0, hf4, hres⟩
-  · have : nextCont fuel r = resume fuel ip' true { r with bp := bp', incompletePos := some ip' } := by
-      simp only [nextCont, hip, Option.isNone_none, if_true, search_eq r hip, hres, wrapS]
-    rw [this]
-    refine resume_spec inp fuel { r with bp := bp', incompletePos := some ip' } ip'
-      (hb.set_bp bp' _ hp0) he hst hsc ?_
-    have := hb.cur_le
+/-- `search` (or a pending resume) followed by the loop finds S's next item -/
+theorem nextCont_found (inp : List UInt8) (G : Prop) (fuel : Nat) (r : Reader) (hb : Base inp G r)
+    (he : Eof inp r) (hip : IpOk r) (hfuel : inp.length + 2 ≤ fuel) :
+    Found inp G r.state (itemsAt inp r.byte r.line) (nextCont fuel r) := by
+  have hmu : ∀ r' : Reader, r'.br.src.cursor ≤ inp.length → mu inp r' + 1 ≤ fuel := by
+    intro r' h
     simp only [mu]
     split <;> omega
-  · have : nextCont fuel r = validated { r with bp := bp', incompletePos := none } := by
-      have h1 := validate_ip { r with bp := bp', incompletePos := none }
-      simp only [nextCont, hip, Option.isNone_none, if_true, search_eq r hip, hres]
-      unfold validated
-      revert h1
-      generalize validate _ = v
-      rcases v with ⟨r', (_ | _ | _ | _)⟩ <;> intro h1
-      · simp only at h1
-        simp only [wrapS, wrapV, h1]
-      all_goals rfl
+  cases hipv : r.incompletePos with
+  | some ip =>
+    have : nextCont fuel r = resume fuel ip true r := by
+      simp only [nextCont, hipv, Option.isNone_some, Bool.false_eq_true, if_false]
     rw [this]
-    exact complete_outcome inp { r with bp := bp', incompletePos := none }
-      (hb.set_bp bp' _ hp0) he hst rfl hf4
+    exact resume_spec inp G true fuel r ip hb he (hip ip hipv) (hmu r hb.cur_le)
+  | none =>
+    rcases si_spec r .head hb.pos0_le trivial with ⟨bp', ip', hp0, hsc, hres⟩ | ⟨bp', hp0, hf4, hres⟩
+    · have : nextCont fuel r =
+          resume fuel ip' true { r with bp := bp', incompletePos := some ip' } := by
+        simp only [nextCont, hipv, Option.isNone_none, if_true, search_eq r hipv, hres, wrapS]
+      rw [this]
+      exact resume_spec inp G true fuel { r with bp := bp', incompletePos := some ip' } ip'
+        (hb.set_bp bp' _ hp0) he hsc (hmu _ hb.cur_le)
+    · have : nextCont fuel r = validated { r with bp := bp', incompletePos := none } := by
+        have h1 := validate_ip { r with bp := bp', incompletePos := none }
+        simp only [nextCont, hipv, Option.isNone_none, if_true, search_eq r hipv, hres]
+        unfold validated
+        revert h1
+        generalize validate _ = v
+        rcases v with ⟨r', (_ | _ | _ | _)⟩ <;> intro h1
+        · simp only at h1
+          simp only [wrapS, wrapV, h1]
+        all_goals rfl
+      rw [this]
+      exact complete_found inp G { r with bp := bp', incompletePos := none }
+        (hb.set_bp bp' _ hp0) he rfl hf4
 
-theorem Base.set_state {inp : List UInt8} {r : Reader} (h : Base inp r) (st : State) :
-    Base inp { r with state := st } := by
-  obtain ⟨a, b, c, d, e, f, g, w, k⟩ := h
-  exact ⟨a, b, c, d, e, f, g, w, k⟩
+/-- the state in which `next` looks for the next record -/
+theorem good_positioned_of {inp G r its} (hb : Base inp G r) (he : Eof inp r) (hip : IpOk r)
+    (hits : its = itemsAt inp r.byte r.line) (hst : r.state = .positioned) : Good inp G r its := by
+  simp only [Good, hst]
+  exact ⟨hb, he, hip, hits⟩
 
-/-- one `next` call -/
-theorem next_spec (inp : List UInt8) (fuel : Nat) (r : Reader) (items : List FqItem)
-    (hg : Good inp r items) (hfuel : r.br.src.inp.length + 2 ≤ fuel) :
-    Outcome inp items (next fuel r) := by
+/-- one `next` call finds S's next item -/
+theorem next_found (inp : List UInt8) (G : Prop) (fuel : Nat) (r : Reader) (its : List FqItem)
+    (hg : Good inp G r its) (hfuel : r.br.src.inp.length + 2 ≤ fuel) :
+    Found inp G .parsing its (next fuel r) := by
   cases hst : r.state with
-  | positioned => simp only [Good, hst] at hg
+  | positioned =>
+    simp only [Good, hst] at hg
+    obtain ⟨hb, he, hip, hits⟩ := hg
+    rw [hb.inp_eq] at hfuel
+    have : next fuel r = nextCont fuel { r with state := .parsing } := by
+      simp only [next, hst]
+    rw [this, hits]
+    exact nextCont_found inp G fuel { r with state := .parsing } (hb.set_state _) he hip hfuel
   | finished =>
     simp only [Good, hst] at hg
-    subst hg
+    obtain ⟨hw, he, hits⟩ := hg
+    subst hits
     simp only [next, hst]
-    exact ⟨[], by simp only [Good, hst], Or.inl ⟨rfl, rfl, rfl⟩⟩
+    exact Or.inr (Or.inl ⟨rfl, rfl, hst, hw, he⟩)
   | new =>
     simp only [Good, hst] at hg
-    obtain ⟨hbuf, hcur, hinp, hp0, hbyte, hline, hip, hcap, hnf, hpol, hitems⟩ := hg
-    have hb : Base inp r := by
-      refine ⟨hinp, by omega, hnf, hpol, hcap, by simp [hbuf], by simp [hbuf, hp0], ?_, ?_⟩
-      · simp [hbuf, hbyte, hcur]
-      · simp [hbuf, hbyte, hcur]
-    obtain ⟨br', ext, n, hfill, hbuf', hcap', hcur', hext, hb2, he2, hn⟩ := fill_base inp r hb
-    rw [hinp] at hfuel
+    obtain ⟨hw, hbuf, hcur, hp0, hbyte, hline, hip, hitems⟩ := hg
+    obtain ⟨br', ext, n, hfill, hbuf', hcap', hcur', hext, hw2, he2, hn⟩ := fill_win inp G r hw
+    rw [hw.inp_eq] at hfuel
     cases n with
     | zero =>
       have hnil : inp = [] := by
+        have := hw.cap3
         rw [hbuf, hcur, ← hn] at hext
         simp only [List.length_nil, Nat.sub_zero] at hext
         have : inp.length = 0 := by omega
         exact List.eq_nil_of_length_eq_zero this
-      have hi : items = [] := by
+      have hi : its = [] := by
         rw [hitems, hnil]
         exact fqGo_end false 0 1
       subst hi
       simp only [next, hst, init, hfill]
-      exact ⟨[], by simp only [Good], Or.inl ⟨rfl, rfl, rfl⟩⟩
+      exact Or.inr (Or.inl ⟨rfl, rfl, rfl, hw2.set_state _, he2⟩)
     | succ n =>
       have : next fuel r = nextCont fuel { r with br := br', state := .parsing } := by
         simp only [next, hst, init, hfill]
       rw [this, hitems, ← hbyte, ← hline]
-      exact nextCont_spec inp fuel { r with br := br', state := .parsing }
-        (hb2.set_state .parsing) he2 rfl hip hfuel
+      have hb2 : Base inp G { r with br := br' } := ⟨hw2, by simp [hp0]⟩
+      exact nextCont_found inp G fuel { r with br := br', state := .parsing }
+        (hb2.set_state .parsing) he2 (by intro ip h; simp only [hip] at h; cases h) hfuel
   | parsing =>
     simp only [Good, hst] at hg
     obtain ⟨hb, he, hip, h01, h1l, hitems⟩ := hg
@@ -102,15 +117,55 @@ theorem next_spec (inp : List UInt8) (fuel : Nat) (r : Reader) (items : List FqI
       simp only [next, hst, hinc]
     rw [this, hitems]
     have hp0 := hb.pos0_le
-    refine nextCont_spec inp fuel _ ?_ he hst hip hfuel
-    obtain ⟨a, b, c, d, e, f, g, w, k⟩ := hb
-    refine ⟨a, b, c, d, e, f, h1l, ?_, ?_⟩
-    · simp only
-      rw [← List.drop_drop, w, List.drop_append_of_le_length (by simp; omega), List.drop_drop]
-      congr 2
-      omega
-    · simp only
-      omega
+    have h := nextCont_found inp G fuel { r with
+        byte := r.byte + (r.bp.pos1 + 1 - r.bp.pos0), line := r.line + 4,
+        bp := { r.bp with pos0 := r.bp.pos1 + 1 } } ?_ he
+        (by intro ip h; simp only [hip] at h; cases h) hfuel
+    · simpa only [hst] using h
+    · obtain ⟨⟨a, b, c, d, e, f, g, i, w, k⟩, -⟩ := hb
+      exact ⟨⟨a, b, c, d, e, f, g, i, w, by simp only; omega⟩, h1l⟩
+
+theorem observe_of_viewRec {r : Reader} {x : Rec} (h : viewRec r.br.buf r.bp = some x) :
+    observe r (.ok true) = .record x.head x.seq x.qual r.line r.byte := by
+  simp only [viewRec] at h
+  simp only [observe]
+  split at h
+  · rename_i h1 h2 h3
+    simp only [Option.some.injEq] at h
+    subst h
+    simp only [h1, h2, h3]
+  · cases h
+
+/-- after a found record the reader is in a good state for the remaining items -/
+theorem Shown.good {inp G r x its'} (h : Shown inp G .parsing r x its') : Good inp G r its' := by
+  rcases h.rest with ⟨hst, hip, h1l, hits⟩ | ⟨hst, hits⟩
+  · simp only [Good, hst]
+    exact ⟨⟨h.win, by have := h.p01; omega⟩, h.eof, hip, h.p01, h1l, hits⟩
+  · simp only [Good, hst]
+    exact ⟨h.win, h.eof, hits⟩
+
+theorem Fin.good {inp G r} (h : Fin inp G r) : Good inp G r [] := by
+  unfold Good
+  rw [h.1]
+  exact ⟨h.2.1, h.2.2, rfl⟩
+
+/-- one `next` call: a good state for the remaining items, and what the caller sees -/
+theorem next_spec (inp : List UInt8) (G : Prop) (fuel : Nat) (r : Reader) (items : List FqItem)
+    (hg : Good inp G r items) (hfuel : r.br.src.inp.length + 2 ≤ fuel) :
+    ∃ items', Good inp G (next fuel r).1 items' ∧
+      ((items = [] ∧ items' = [] ∧ observe (next fuel r).1 (next fuel r).2 = .none) ∨
+       (∃ i, items = i :: items' ∧ observe (next fuel r).1 (next fuel r).2 = obsOf i) ∨
+       (¬ G ∧ (next fuel r).2 = .err .bufferLimit ∧ items' = [])) := by
+  rcases next_found inp G fuel r items hg hfuel with
+    ⟨hr, x, its', hits, hsh⟩ | ⟨hr, hits, hfin⟩ | ⟨e, b, l, hr, hits, hfin⟩ | ⟨hr, hG, hfin⟩
+  · refine ⟨its', hsh.good, Or.inr (Or.inl ⟨_, hits, ?_⟩)⟩
+    rw [hr, observe_of_viewRec hsh.view]
+    simp only [obsOf, recOf, hsh.line_eq, hsh.byte_eq]
+  · refine ⟨[], hfin.good, Or.inl ⟨hits, rfl, ?_⟩⟩
+    rw [hr]; rfl
+  · refine ⟨[], hfin.good, Or.inr (Or.inl ⟨_, hits, ?_⟩)⟩
+    rw [hr]; rfl
+  · exact ⟨[], hfin.good, Or.inr (Or.inr ⟨hG, hr, rfl⟩)⟩
 
 theorem take_append_replicate_succ {α : Type} (l : List α) (x : α) (k : Nat) :
     (l ++ List.replicate (k + 1) x).take k = (l ++ List.replicate k x).take k := by
@@ -118,9 +173,9 @@ theorem take_append_replicate_succ {α : Type} (l : List α) (x : α) (k : Nat) 
   congr 2
   omega
 
-/-- `k` consecutive `next` calls from a good state -/
+/-- `k` consecutive `next` calls from a good state (never-refusing policy) -/
 theorem runNexts_spec (inp : List UInt8) (k : Nat) :
-    ∀ (r : Reader) (items : List FqItem), Good inp r items →
+    ∀ (r : Reader) (items : List FqItem), Good inp True r items →
       runNexts k r = (items.map obsOf ++ List.replicate k Obs.none).take k := by
   induction k with
   | zero => intro r items _; simp [runNexts]
@@ -128,10 +183,10 @@ theorem runNexts_spec (inp : List UInt8) (k : Nat) :
     intro r items hg
     have hfuel : r.br.src.inp.length + 2 ≤ opFuel r.br.src.inp.length r.br.src.script.length := by
       simp only [opFuel]; omega
-    obtain ⟨items', hg', hcase⟩ := next_spec inp _ r items hg hfuel
+    obtain ⟨items', hg', hcase⟩ := next_spec inp True _ r items hg hfuel
     simp only [runNexts]
     rw [ih _ items' hg']
-    rcases hcase with ⟨h1, h2, h3⟩ | ⟨i, h1, h2⟩
+    rcases hcase with ⟨h1, h2, h3⟩ | ⟨i, h1, h2⟩ | ⟨h1, -⟩
     · subst h1; subst h2
       rw [h3]
       simp [List.replicate_succ]
@@ -139,13 +194,25 @@ theorem runNexts_spec (inp : List UInt8) (k : Nat) :
       rw [h2]
       simp only [List.map_cons, List.cons_append, List.take_succ_cons]
       rw [take_append_replicate_succ]
+    · exact absurd trivial h1
+
+theorem win_mkReader (inp : List UInt8) (G : Prop) (cap : Nat) (hcap : 3 ≤ cap) (pol : Pol)
+    (hwf : PolWf1 pol) (hg : G → PolGrows pol) (script : List ReadEv) (hs : NoFail script)
+    (chunk : Nat) : Win inp G (mkReader inp cap pol script chunk) := by
+  refine ⟨rfl, Nat.zero_le _, hs, hwf, hg, hcap, Nat.zero_le _, Nat.le_refl _, ?_, rfl⟩
+  simp [mkReader]
+
+theorem good_mkReader' (inp : List UInt8) (G : Prop) (cap : Nat) (hcap : 3 ≤ cap) (pol : Pol)
+    (hwf : PolWf1 pol) (hg : G → PolGrows pol) (script : List ReadEv) (hs : NoFail script)
+    (chunk : Nat) : Good inp G (mkReader inp cap pol script chunk) (Spec.fastq inp) := by
+  unfold Good
+  refine ⟨win_mkReader inp G cap hcap pol hwf hg script hs chunk, rfl, rfl, rfl, rfl, rfl, rfl, ?_⟩
+  simp only [itemsAt, List.drop_zero, Spec.fastq]
 
 theorem good_mkReader (inp : List UInt8) (cap : Nat) (hcap : 3 ≤ cap) (pol : Pol) (hpol : PolGrows pol)
     (script : List ReadEv) (hs : NoFail script) (chunk : Nat) :
-    Good inp (mkReader inp cap pol script chunk) (Spec.fastq inp) := by
-  unfold Good
-  refine ⟨rfl, rfl, rfl, rfl, rfl, rfl, rfl, hcap, hs, hpol, ?_⟩
-  simp only [itemsAt, List.drop_zero, Spec.fastq]
+    Good inp True (mkReader inp cap pol script chunk) (Spec.fastq inp) :=
+  good_mkReader' inp True cap hcap pol hpol.wf1 (fun _ => hpol) script hs chunk
 
 /-- the stream theorem for every policy that grows from capacities ≥ 1 on (this includes the
 built-in `StdPolicy` and `DoubleUntil`, see `polGrows_std`, `polGrows_doubleUntil`) -/
@@ -178,11 +245,11 @@ theorem fastq_next_stream_single_buffer (inp : List UInt8) (cap : Nat) (hcap : 3
     runNexts k (mkReader inp cap pol [] 0) = (specObs inp ++ List.replicate k Obs.none).take k :=
   fastq_next_stream inp cap hcap pol hpol [] noFail_nil 0 k
 
-
 /-! ## M2: the invariant and its corollaries -/
 
-/-- reader states reachable by `next` calls: good for some list of remaining items -/
-def Inv (inp : List UInt8) (r : Reader) : Prop := ∃ items, Good inp r items
+/-- reader states reachable by API calls (never-refusing policy): good for some list of
+remaining items -/
+def Inv (inp : List UInt8) (r : Reader) : Prop := ∃ items, Good inp True r items
 
 theorem inv_mkReader (inp : List UInt8) (cap : Nat) (hcap : 3 ≤ cap) (pol : Pol) (hpol : PolGrows pol)
     (script : List ReadEv) (hs : NoFail script) (chunk : Nat) :
@@ -192,7 +259,7 @@ theorem inv_mkReader (inp : List UInt8) (cap : Nat) (hcap : 3 ≤ cap) (pol : Po
 theorem next_preserves_inv (inp : List UInt8) (fuel : Nat) (r : Reader) (h : Inv inp r)
     (hfuel : r.br.src.inp.length + 2 ≤ fuel) : Inv inp (next fuel r).1 := by
   obtain ⟨items, hg⟩ := h
-  obtain ⟨items', hg', -⟩ := next_spec inp fuel r items hg hfuel
+  obtain ⟨items', hg', -⟩ := next_spec inp True fuel r items hg hfuel
   exact ⟨items', hg'⟩
 
 theorem opFuel_enough (r : Reader) :
@@ -205,10 +272,11 @@ theorem next_observe (inp : List UInt8) (fuel : Nat) (r : Reader) (h : Inv inp r
     observe (next fuel r).1 (next fuel r).2 = .none ∨
       ∃ i, observe (next fuel r).1 (next fuel r).2 = obsOf i := by
   obtain ⟨items, hg⟩ := h
-  obtain ⟨items', -, hc⟩ := next_spec inp fuel r items hg hfuel
-  rcases hc with ⟨-, -, h3⟩ | ⟨i, -, h2⟩
+  obtain ⟨items', -, hc⟩ := next_spec inp True fuel r items hg hfuel
+  rcases hc with ⟨-, -, h3⟩ | ⟨i, -, h2⟩ | ⟨h1, -⟩
   · exact Or.inl h3
   · exact Or.inr ⟨i, h2⟩
+  · exact absurd trivial h1
 
 theorem obsOf_ne_panic (i : FqItem) : obsOf i ≠ .panic := by cases i <;> simp [obsOf]
 theorem obsOf_ne_fuel (i : FqItem) : obsOf i ≠ .fuel := by cases i <;> simp [obsOf]
